@@ -22,6 +22,16 @@ struct Sys
     bool rev = false;
     int K = 4, cap = 7;
     bool thorough = false;
+    template <class O>
+    std::vector<std::string> variants(O &, const std::string &)
+    {
+        return {};
+    }
+    static constexpr bool kModelInCanon = true;  // the key array is the model multiset (ids are labels)
+    template <class O, class F>
+    void checkTransition(O &, const std::vector<std::string> &, F)
+    {
+    }
     struct Obj
     {
         std::unique_ptr<Heap> h;
